@@ -29,9 +29,9 @@ macro "res_ok" " at " h:ident : tactic =>
   `(tactic| simp only [bind_ok_iff, check_ok_iff, out0_ok_iff, out1_ok_iff, out2_ok_iff, caddF_ok_iff, csubF_ok_iff,
       cadd_ok_iff, csub_ok_iff, cmulF_ok_iff,
       decide_eq_false_iff_not, exists_const, Decidable.not_not, Nat.not_le, gt_iff_lt, Nat.not_lt, pure_eq_ok,
-      Bool.and_eq_false_imp, Bool.or_eq_false_iff, ne_eq, ge_iff_le] at $h:ident)
+      Bool.and_eq_false_imp, Bool.or_eq_false_iff, ne_eq, ge_iff_le, Res.ok.injEq] at $h:ident)
 
-theorem C128_pos : 0 < C128 := by decide
+theorem C128_pos : 0 < C128 := by decide +kernel
 
 /-! ### validateStdRevision -/
 
@@ -206,16 +206,24 @@ theorem wellformed_preserved {fx : Bool} {cur rev : Rev} {u : Unit} (h : validat
 /-! non-vacuity and witnesses -/
 
 /-- an honest RHP2 write: pay 10, burn 5 -/
-def exCur : Rev := { revNo := 5, wStart := 100, wEnd := 200, unlockHash := 10, ucHash := 10, filesize := 0, root := 0,
-  valid := [⟨1, 100⟩, ⟨2, 50⟩], missed := [⟨1, 100⟩, ⟨2, 40⟩, ⟨0, 10⟩] }
+def exCur : Rev where
+  revNo := 5
+  wStart := 100
+  wEnd := 200
+  unlockHash := 10
+  ucHash := 10
+  filesize := 0
+  root := 0
+  valid := [⟨1, 100⟩, ⟨2, 50⟩]
+  missed := [⟨1, 100⟩, ⟨2, 40⟩, ⟨0, 10⟩]
 def exRev : Rev := { exCur with revNo := 6, valid := [⟨1, 90⟩, ⟨2, 60⟩], missed := [⟨1, 90⟩, ⟨2, 35⟩, ⟨0, 25⟩] }
 
-example : validateRevision false exCur exRev 10 5 = .ok (10, 5) := by decide
-example : validateRevision true exCur exRev 10 5 = .ok (10, 5) := by decide
-example : total exCur.missed = total exCur.valid := by decide
-example : validateProgram false exCur { exCur with revNo := 6, missed := [⟨1, 100⟩, ⟨2, 33⟩, ⟨0, 17⟩] } 3 4 = .ok 7 := by decide
+example : validateRevision false exCur exRev 10 5 = .ok (10, 5) := by decide +kernel
+example : validateRevision true exCur exRev 10 5 = .ok (10, 5) := by decide +kernel
+example : total exCur.missed = total exCur.valid := by decide +kernel
+example : validateProgram false exCur { exCur with revNo := 6, missed := [⟨1, 100⟩, ⟨2, 33⟩, ⟨0, 17⟩] } 3 4 = .ok 7 := by decide +kernel
 example : validatePayment false exCur { exCur with revNo := 6, valid := [⟨1, 90⟩, ⟨2, 60⟩], missed := [⟨1, 90⟩, ⟨2, 50⟩, ⟨0, 10⟩] } 10
-    = .ok () := by decide
+    = .ok () := by decide +kernel
 
 /-- the current tree accepts a revision that changes the missed payout sum when the current
 revision's sums differ (corpus: c07_witnesses.trace, line `vrev … missed_sum`) -/
@@ -223,8 +231,8 @@ def wMissedCur : Rev := { exCur with missed := [⟨1, 100⟩, ⟨2, 40⟩, ⟨0,
 def wMissedRev : Rev := { exCur with revNo := 6, missed := [⟨1, 100⟩, ⟨2, 40⟩, ⟨0, 10⟩] }
 theorem revision_accept_unsafe_witness :
     validateRevision false wMissedCur wMissedRev 0 0 = .ok (0, 0) ∧
-    ("missed_sum_unchanged", false) ∈ revisionClauses wMissedCur wMissedRev 0 0 := by decide
-example : validateRevision true wMissedCur wMissedRev 0 0 = .reject .missedSum := by decide
+    ("missed_sum_unchanged", false) ∈ revisionClauses wMissedCur wMissedRev 0 0 := by decide +kernel
+example : validateRevision true wMissedCur wMissedRev 0 0 = .reject .missedSum := by decide +kernel
 
 /-! ### ValidateClearingRevision -/
 
@@ -244,7 +252,8 @@ theorem clearLoop_ok {v c m : List Out} {u : Unit} (h : clearLoop v c m = .ok u)
         obtain ⟨h1, h2, h3, h4⟩ := h
         have := ih h4
         refine ⟨by simp; omega, by simp; omega, by simp [h1, this.2.2.1], ?_⟩
-        have hx : x = m := by cases x; cases m; simp_all
+        have hx : x = m := by
+          cases x; cases m; simp at h2 h3; simp [h2, h3]
         simp [hx]; exact this.2.2.2
 
 /-- **C07 clearing_safe.** For ALL inputs: an accepted clearing revision zeroes the file, carries the
@@ -274,7 +283,7 @@ theorem validateClearing_accept_safe {fx : Bool} {cur fin : Rev} {pay r : Nat}
   subst hfvr
   have hmv : fin.missed = fin.valid := by
     have h4 := hl.2.2.2
-    rw [hlv, ← hlm, List.take_length] at h4
+    rw [hlv, List.take_length] at h4
     exact h4.symm
   have hfm : fmr = fv0 := by rw [hmv, hfv] at hfm0; simp at hfm0; exact hfm0.1.symm
   subst hfm
@@ -315,12 +324,11 @@ theorem validateClearing_returns {fx : Bool} {cur fin : Rev} {pay r : Nat}
   res_ok at h
   obtain ⟨_, _, _, _, _, _, _, _, _, _, _, cvr, _, fmr, _, hle1,
     fvh, ⟨fv0, fvr, hfv⟩, cvh, ⟨cv0, cvr', hcv⟩, hle2, heq, hpay, u, hloop, hret⟩ := h
-  simp only [Res.ok.injEq] at hret
   exact ⟨cvh.val, fvh.val, by simp [hcv, hostVal_cons], by simp [hfv, hostVal_cons], by omega, by omega⟩
 
 def exFin : Rev := { exCur with revNo := maxRev, valid := [⟨1, 99⟩, ⟨2, 51⟩], missed := [⟨1, 99⟩, ⟨2, 51⟩] }
-example : validateClearing false exCur exFin 1 = .ok 1 := by decide
-example : validateClearing true exCur exFin 1 = .ok 1 := by decide
+example : validateClearing false exCur exFin 1 = .ok 1 := by decide +kernel
+example : validateClearing true exCur exFin 1 = .ok 1 := by decide +kernel
 
 /-- the current tree accepts a "clearing" of an already locked contract (revision number does not
 increase) and of a current revision with three valid outputs (output dropped, sum changed) -/
@@ -329,7 +337,7 @@ theorem clearing_accept_unsafe_witness :
       ("revno_increases", false) ∈ clearingClauses { exCur with revNo := maxRev } exFin 1) ∧
     (validateClearing false { exCur with valid := [⟨1, 100⟩, ⟨2, 50⟩, ⟨3, 7⟩] } exFin 1 = .ok 1 ∧
       ("valid_sum_unchanged", false) ∈ clearingClauses { exCur with valid := [⟨1, 100⟩, ⟨2, 50⟩, ⟨3, 7⟩] } exFin 1) := by
-  decide
+  decide +kernel
 
 /-! ### Revise / ClearingRevision build the candidate from renter-supplied VALUES only -/
 
@@ -404,7 +412,7 @@ theorem clearingRevision_no_panic (cur : Rev) (vv : List Nat) : NoPanic (clearin
   res_ok at h3
   exact NoPanic.bind (reviseLoop_noPanic (by omega)) fun _ _ => NoPanic.pure _
 
-example : (revise exCur 6 [90, 60] [90, 35, 25]) = .ok exRev := by decide
+example : (revise exCur 6 [90, 60] [90, 35, 25]) = .ok exRev := by decide +kernel
 
 /-! ### no_panic -/
 
@@ -670,39 +678,39 @@ replays exactly these on the real functions) -/
 /-- (a) a proposal with more outputs than the current revision: `current.ValidProofOutputs[2]` -/
 theorem revision_panics_more_outputs :
     validateRevision false exCur { exRev with valid := exRev.valid ++ [⟨3, 0⟩] } 10 5 = .panic .stdCurValidIndex := by
-  decide
+  decide +kernel
 /-- (b) the renter-supplied output sum overflows 2^128 (reachable through `Revise`, which copies the
 renter's values): `validPayout.Add` -/
 theorem revision_panics_sum_overflow :
     (revise exCur 6 [C128 - 1, 60] [90, 35, 25]).bind (fun r => validateRevision false exCur r 10 5)
-      = .panic .stdValidSum := by decide
+      = .panic .stdValidSum := by decide +kernel
 /-- (c) zero outputs: `revision.ValidRenterPayout()` -/
 theorem revision_panics_zero_outputs :
     validateRevision false { exCur with valid := [], missed := [] } { exCur with revNo := 6, valid := [], missed := [] } 0 0
-      = .panic .stdRevValidRenter := by decide
+      = .panic .stdRevValidRenter := by decide +kernel
 /-- a single output: `current.MissedHostPayout()` -/
 theorem revision_panics_one_output :
     validateRevision false { exCur with valid := [⟨1, 5⟩], missed := [⟨1, 5⟩] }
-      { exCur with revNo := 6, valid := [⟨1, 5⟩], missed := [⟨1, 5⟩] } 0 0 = .panic .revCurMissedHost := by decide
+      { exCur with revNo := 6, valid := [⟨1, 5⟩], missed := [⟨1, 5⟩] } 0 0 = .panic .revCurMissedHost := by decide +kernel
 /-- `ValidateProgramRevision` with two missed outputs: `revision.MissedProofOutputs[2]` -/
 theorem program_panics_two_missed :
     validateProgram false { exCur with missed := [⟨1, 100⟩, ⟨2, 50⟩] }
-      { exCur with revNo := 6, missed := [⟨1, 100⟩, ⟨2, 50⟩] } 0 0 = .panic .progRevVoid := by decide
+      { exCur with revNo := 6, missed := [⟨1, 100⟩, ⟨2, 50⟩] } 0 0 = .panic .progRevVoid := by decide +kernel
 /-- `ValidateProgramRevision`: `storage.Add(collateral)` -/
 theorem program_panics_cost_overflow :
-    validateProgram false exCur { exCur with revNo := 6 } (C128 - 1) 1 = .panic .progExpectedBurn := by decide
+    validateProgram false exCur { exCur with revNo := 6 } (C128 - 1) 1 = .panic .progExpectedBurn := by decide +kernel
 /-- `ValidatePaymentRevision`: `current.ValidRenterPayout().Sub(payment)` -/
 theorem payment_panics_underflow :
-    validatePayment false exCur { exCur with revNo := 6 } 101 = .panic .payValidRenterSub := by decide
+    validatePayment false exCur { exCur with revNo := 6 } 101 = .panic .payValidRenterSub := by decide +kernel
 /-- `ValidateClearingRevision` on a current revision with one valid output: `current.ValidHostPayout()` -/
 theorem clearing_panics_one_output :
-    validateClearing false { exCur with valid := [⟨1, 150⟩] } exFin 0 = .panic .clrCurValidHost := by decide
+    validateClearing false { exCur with valid := [⟨1, 150⟩] } exFin 0 = .panic .clrCurValidHost := by decide +kernel
 
 /-- none of them panics after the repair -/
-example : validateRevision true exCur { exRev with valid := exRev.valid ++ [⟨3, 0⟩] } 10 5 = .reject .validCount := by decide
+example : validateRevision true exCur { exRev with valid := exRev.valid ++ [⟨3, 0⟩] } 10 5 = .reject .validCount := by decide +kernel
 example : (revise exCur 6 [C128 - 1, 60] [90, 35, 25]).bind (fun r => validateRevision true exCur r 10 5)
-    = .reject .sumOverflow := by decide
+    = .reject .sumOverflow := by decide +kernel
 example : validateProgram true { exCur with missed := [⟨1, 100⟩, ⟨2, 50⟩] }
-    { exCur with revNo := 6, missed := [⟨1, 100⟩, ⟨2, 50⟩] } 0 0 = .reject .curShape := by decide
+    { exCur with revNo := 6, missed := [⟨1, 100⟩, ⟨2, 50⟩] } 0 0 = .reject .curShape := by decide +kernel
 
 end Hostd.Revision
